@@ -410,6 +410,17 @@ def run(repo, rep):
     rep.clause("C03-i", "after a Reshape has been bypassed no later rewrite re-derives an operator's OFM shape from the re-shaped tensor (the operator would read IFM positions that its producer never wrote) [rule shared with C02-m]")
     c02.rule_shape_view(repo, rep, "C03-i")
     rule_copy_elision(repo, rep)
+    rep.clause("C03-q", "an idle second core gets an empty weight / scale window from every weight operator (the registers persist: a stale window is decoded again) [interpretation shared with C02-o]")
+    from .shared import idle_core_windows as _icw
+
+    _icw(repo, rep, "C03-q")
+    rep.clause("C03-r", "Operation.clone gives the clone containers of its own (tile base offsets: each interleaved writer keeps its offset) [rule shared with C08-p]; stripes of an upscaling operator in a cascade are even [rule shared with C10-e]")
+    from .shared import clone_completeness as _cc3
+
+    _cc3(repo, rep, "C03-r")
+    from . import c10 as _c10
+
+    rep.run_borrowed(_c10, {"C10-e": "C03-r"}, repo)
     rep.clause("C03-p", "equivalence id keys determine the bytes of the tensor: values together with the element type")
     rule_equivalence_keys(repo, rep)
     rep.clause("C03-m", "LUT residency extents are byte extents (address + storage_size())")
